@@ -166,6 +166,12 @@ def c15_r2(ctx):
     r = f.reach([lp["some"][1]], avoid_blocks=[c.bb for c in its])
     if lp["header"] in r:
         ctx.viol((f.id, "entry-skipped"), "an entry can be skipped by the directory hash (its content would not matter)", f.where(lp["header"]))
+    # the traversal is cut short only by a failure: an exit that goes on to return the factory
+    # leaves the entries after it out of the hash
+    ok_blocks = {bb for (bb, idx, rv, pl) in f.constructs("std::result::Result", "Ok") if pl["local"] == 0}
+    for (a, b) in f.loop_exits(lp):
+        if ok_blocks & set(f.reach([b])):
+            ctx.viol((f.id, "entries-cut-short"), "the loop over the directory's entries can be left early and the hash is still returned: the content of the entries after that point does not matter to the directory's hash", f.where(a))
     fac = None
     for c in its:
         # ticket = result(sub_factory) where sub_factory = from_file/from_directory(system, this entry)
@@ -208,6 +214,44 @@ def c15_r2(ctx):
         if pl["local"] == 0 and rvars != fac and not (rvars and rvars <= family):
             ctx.viol((f.id, "dir-other-factory-returned"), "the directory hash returned is not the one names and entries were fed to", f.where(bb, idx))
     ctx.ok()
+
+
+@rule("C15.R8", floor=3)
+def c15_r8(ctx):
+    """Inputs reach the digest at once and in call order: every function of the hash factory
+    that takes `&mut self` and one input (`input_ticket`, `input_str`, `input_bytes`) hands that
+    input to `Digest::input` of the factory's own digest - or to another of these functions -
+    on every path before it returns.  An input that is kept back on some path (gathered in a
+    buffer, skipped) is overtaken by a later one: two different sequences of strings then
+    hash alike."""
+    fns = [f for f in prod(ctx.P) if f.id.startswith("ticket::TicketFactory::input_") and f.nargs == 2]
+    ctx.need(len(fns) >= 3, "the factory's input functions")
+    names = {f.id for f in fns}
+    for f in fns:
+        ctx.saw(f)
+        ctx.inst(f.id, f.where(0))
+        feeding = []
+        for c in f.calls:
+            if c.path == "crypto::digest::Digest::input" and len(c.args) >= 2:
+                so = f.origins_of_operand(c.args[0])
+                io = f.origins_of_operand(c.args[1])
+                if so and all(o[0] == ("param", 1) and o[-1] == ("field", "dig") for o in so) and io and all(o[0] == ("param", 2) for o in io):
+                    feeding.append(c.bb)
+            elif c.path in names and c.path != f.id and len(c.args) >= 2:
+                so = f.origins_of_operand(c.args[0])
+                io = f.origins_of_operand(c.args[1])
+                if so and all(o == (("param", 1),) for o in so) and io and all(o[0] == ("param", 2) for o in io):
+                    feeding.append(c.bb)
+        if not feeding:
+            if not any(c.path == "crypto::digest::Digest::input" or c.path in names for c in f.calls):
+                raise AnalysisError("idiom not recognised: %s neither feeds a digest nor another input function" % f.id)
+            ctx.viol((f.id, "input-not-fed"), "%s does not hand its input to the factory's digest" % f.id, f.where(0))
+            continue
+        r = f.reach([0], avoid_blocks=feeding)
+        if any(b in r for b in f.return_blocks):
+            ctx.viol((f.id, "input-kept-back"), "%s can return without having handed its input to the digest (kept in a buffer, or skipped): a later input overtakes it, and different sequences of strings hash alike" % f.id, f.where(0))
+        else:
+            ctx.ok()
 
 
 def _codec(ctx):
